@@ -35,6 +35,10 @@ T_Completes == Go => R.out = "ok"
 \* missing / NaN / infinite entries are excluded (loaded as missing), finite ones kept as they are
 T_Loaded == Ok => \A g \in 1..R.ng : \A m \in 1..R.nm : \A i \in 1..R.ns : R.loaded[g][m][i] = LoadedCell(Col(g, m)[i])
 T_PerSubject == Ok => \A i \in 1..R.ns : \A g \in 1..R.ng : \A m \in 1..R.nm : R.one[i][g][m] = LoadedCell(Col(g, m)[i])
+\* ... whatever the order of the rows in the file (onep: lookup by name in the statistics of the permuted
+\* file; colp: the entry of each column at the position of the subject's name)
+T_PerSubjectAnyOrder == Ok => \A i \in 1..R.ns : \A g \in 1..R.ng : \A m \in 1..R.nm :
+                               R.onep[i][g][m] = LoadedCell(Col(g, m)[i]) /\ R.colp[i][g][m] = LoadedCell(Col(g, m)[i])
 T_Summary == Ok => \A g \in 1..R.ng : \A m \in 1..R.nm : HasSummary(Col(g, m)) => SameSumm(R.summ[g][m], Summary(Col(g, m)))
 T_OrderIrrelevant == Ok => \A g \in 1..R.ng : \A m \in 1..R.nm : HasSummary(Col(g, m)) => SameSumm(R.summp[g][m], Summary(Col(g, m)))
 \* get_summary_across_groups() computes all metrics at once, so it is defined when every
